@@ -602,9 +602,27 @@ namespace Pistache::Http::Experimental
                 ->asyncConnect(shared_from_this(), addr->ai_addr, addr->ai_addrlen)
                 .then(
                     [=]() {
+                        // This continuation can run late: when it is attached after
+                        // the transport has reported the socket ready, found that the
+                        // attempt had failed (connection refused) and closed the
+                        // connection again. The connection is not connected then - its
+                        // descriptor is closed and the number may already belong to
+                        // another socket - and the request that waited for it fails.
+                        auto expected = Connecting;
+                        if (!connectionState_.compare_exchange_strong(expected, Connected))
+                        {
+                            auto req = requestsQueue.popSafe();
+                            if (req)
+                            {
+                                auto onDone = req->onDone;
+                                req->reject(Error("Could not connect"));
+                                if (onDone)
+                                    onDone();
+                            }
+                            return;
+                        }
                         socklen_t len = sizeof(saddr);
                         getsockname(sfd, reinterpret_cast<struct sockaddr*>(&saddr), &len);
-                        connectionState_.store(Connected);
                         processRequestQueue();
                     },
                     PrintException());
